@@ -74,7 +74,7 @@ TB_MARKER = ("trusted: Coq kernel (the property file is closed under the global 
              "evaluate on environments; the iteration order of every Python set involved is recorded on the code and given to the model). Shape of the theorems: partial correctness (`f ... = Ret r -> ...`: fuel exhaustion and the "
              "exceptions of the code are outside), for well-defined operands (wf: `extra` atoms use == / != only, grouped ==/!= atoms sit on string variables - preserved by every operation, it is part of each conclusion), in every environment of a "
              "class `good` that is a PARAMETER: the merge of two version-like atoms is a parameter too, assumed sound on `good` (vmerge_sound). That hypothesis is (a) discharged inside Coq for the oracle built from the bridge model "
-             "(C11_link / C11_linked_ops in Props/C11.v: good = environments that decide version atoms as packaging's Specifier.contains does on a final interpreter; the oracle declines on the recorded finding tilde-max-post), and (b) checked on every row "
+             "(C11_link / C11_link_pv / C11_linked_normaliser in Props/C11.v: good = environments that decide version atoms as packaging's Specifier.contains does on a final interpreter; the oracle declines on the recorded finding tilde-max-post), and (b) checked on every row "
              "the implementation produced (S-vmerge-rows, final-version environments; pre-release interpreters, in-lists and long python_version operands are the recorded findings nonfinal-env / pv-in-substring / pv-long-operand). "
              "Set iteration order and fuel are universally quantified")
 TB_PARSE = ("trusted: Coq kernel (closed under the global context); Model/SpecParse.v is hand-written over tokenised clauses and tied to the code by the S-parse stream; the GENERATED algebra is tied by S-gen; the text layer "
@@ -114,7 +114,7 @@ P["C14"] = ("proof", "Specifier part: 13 laws + complement as `==` of the return
 P["C11"] = ("proof", "C11_view: for EVERY comparison / ~= / wildcard atom on a version variable (any operand shape: release length, epoch, pre/post/dev suffix) `value in marker.specifier` equals the atom's evaluation on every final interpreter version; "
             "C11_back: from_specifier(name, s) returns AnyMarker / EmptyMarker only for the universal / empty set and otherwise None or an atom that evaluates true exactly on the final versions s admits, for every canonical s with genuine remembered clauses; "
             "C11_padding: zero padding the release segment (python_full_version) changes no comparison; C11_reversed: literal-on-the-left atoms with a final literal evaluate like the mirrored atom; C11_merge: _merge_single_markers on two atoms of one version-like variable returns something that evaluates as their conjunction / disjunction "
-            "(side condition: the merged specifier is tilde_safe, i.e. outside the recorded finding tilde-max-post; the same side condition is on C11_back); C11_link / C11_linked_ops: for ANY tokeniser/printer pair that round-trips, the merging oracle built from this model satisfies the hypothesis vmerge_sound of the marker theorems (C02 ...), "
+            "(side condition: the merged specifier is tilde_safe, i.e. outside the recorded finding tilde-max-post; the same side condition is on C11_back); C11_link / C11_linked_ops / C11_link_pv / C11_linked_normaliser: for ANY tokeniser/printer pair that round-trips, the merging oracle built from this model satisfies the hypothesis vmerge_sound of the marker theorems (C02 ...), "
             "so & and | computed with it mean the conjunction / disjunction of their operands on every environment that decides version atoms as packaging does on a final interpreter (link_runs / env0_good: the oracle merges, the class is inhabited); C11_normalize / C11_merge_pv: the same for the python_version / python_full_version pair on every consistent interpreter (python_version = X.Y, "
             "python_full_version = X.Y.Z), for python_version operands with at most two meaningful segments (the rest is the recorded finding pv-long-operand). Atom evaluation = packaging's Specifier.contains = clause_sem (model; compared with evaluate() and packaging by S-bridge / S-parse). "
             "Outside the theorems: `in`/`not in` lists (string containment: known finding pv-in-substring) - direct oracle only.",
